@@ -1,10 +1,65 @@
-import AcraModel.Basic.Bytes
-/-! Driver ops for C16. -/
+import AcraModel.Sql.Shape
+import AcraModel.Sql.GoNum
+import AcraModel.Sql.LogModel
+/-! Driver ops for C16 (redaction). Trees travel as token lists (`Sql.render` / `Sql.parseTreeAll`). -/
 namespace Driver.C16
-open AcraModel
+open AcraModel AcraModel.Sql
+
+open AcraModel.Sql.LogModel in
+def msgName : Msg → String
+  | .proxyNewQuery => "proxyNewQuery" | .proxyParsingError => "proxyParsingError" | .failedToParse => "failedToParse"
+  | .unparsedDenied => "unparsedDenied" | .allowedShown => "allowedShown" | .allowedHidden => "allowedHidden"
+  | .deniedShown => "deniedShown" | .deniedHidden => "deniedHidden" | .deniedBy => "deniedBy"
+  | .debugState => "debugState" | .handlerOwn => "handlerOwn" | .censorBlocked => "censorBlocked"
+
+open AcraModel.Sql.LogModel in
+def payloadName : Option Txt → String
+  | none => "none" | some .raw => "raw" | some .normalized => "normalized" | some .redacted => "redacted"
+
+open AcraModel.Sql.LogModel in
+def parseHandler (tok : String) : Option Handler :=
+  match tok.splitOn ":" with
+  | ["cap"] => some .capture
+  | ["ign", "0"] => some (.ignore false)
+  | ["ign", "1"] => some (.ignore true)
+  | ["sec", d, l] =>
+    let logs := l == "true"
+    match d with
+    | "continue" => some (.security .continue logs)
+    | "allow" => some (.security .allow logs)
+    | "deny" => some (.security .deny logs)
+    | _ => none
+  | _ => none
+
+open AcraModel.Sql.LogModel in
+def logTrace (debug ign : String) (parse decisions : String) : Option String := do
+  let p ← match parse with
+    | "ok" => some (Parse.ok false) | "okempty" => some (Parse.ok true) | "fail" => some Parse.fail | _ => none
+  let hs ← if decisions == "-" then some [] else (decisions.splitOn ",").mapM parseHandler
+  let c : Config := { handlers := hs, ignoreParseError := ign == "1", hasUnparsedWriter := false, debug := debug == "1" }
+  let r := proxyQuery c p
+  let es := r.1.map fun e => msgName e.msg ++ ":" ++ payloadName e.payload
+  pure ((if r.2 then "denied " else "allowed ") ++ (if es.isEmpty then "-" else ",".intercalate es))
 
 def handle (op : String) (args : List String) : Option String :=
   match op, args with
+  | "normalize", _dialect :: pfx :: _stmt :: toks => do
+      let pfx ← ofHex pfx
+      let t ← parseTreeAll toks
+      pure ("ok " ++ renderStr (normalize GoNum.goValid pfx t))
+  | "redacttree", _dialect :: _stmt :: toks => do
+      let t ← parseTreeAll toks
+      pure ("ok " ++ renderStr (redact GoNum.goValid t))
+  | "logtrace", [_dialect, debug, ign, _handlers, _stmt, parse, decisions] => logTrace debug ign parse decisions
+  | "lits", toks => do
+      let t ← parseTreeAll toks
+      pure ("ok " ++ toString (lits t).length ++ " " ++ ",".intercalate ((lits t).map hexOf))
+  | "bindvars", toks => do
+      let t ← parseTreeAll toks
+      pure ("ok " ++ ",".intercalate ((bindvars t).map hexOf))
+  | "shape", toks => do
+      let t ← parseTreeAll toks
+      pure ("ok " ++ renderStr (shape t))
   | _, _ => none
 
 end Driver.C16
